@@ -107,7 +107,8 @@ def parse_params(text):
             continue
         if c in EXT:
             g = EXT[c]
-            rest = vals[i + 1:]
+            # (an empty parameter is 0 in argument position too)
+            rest = [0 if toks[j] == '' else vals[j] for j in range(i + 1, n)]
             if not rest:
                 p.incomplete_tail = True
                 i += 1
